@@ -94,13 +94,17 @@ func c16CheckOrdered(c *Ctx, mods []string, engine bool) rules.CosmeticOption {
 	}
 	if engine {
 		e := urlfilter.NewEngine(stringStorage(text + "\n"))
-		req := rules.NewRequest("http://example.org/", "", rules.TypeDocument)
-		res := e.MatchRequest(req)
-		c.Run.Add("evaluations", 1)
-		if res.BasicRule == nil || res.BasicRule.RuleText != text {
-			bad("Engine.MatchRequest did not select the exception as basic rule", 0)
-		} else if g := res.GetCosmeticOption(); g != exp {
-			bad("Engine.MatchRequest", g)
+		// no referrer, a same-site referrer (the exception then also matches the
+		// referrer as a document) and a foreign referrer
+		for _, src := range []string{"", "http://example.org/page", "http://other.test/"} {
+			req := rules.NewRequest("http://example.org/", src, rules.TypeDocument)
+			res := e.MatchRequest(req)
+			c.Run.Add("evaluations", 1)
+			if res.BasicRule == nil || res.BasicRule.RuleText != text {
+				bad(fmt.Sprintf("Engine.MatchRequest (referrer %q) did not select the exception as basic rule", src), 0)
+			} else if g := res.GetCosmeticOption(); g != exp {
+				bad(fmt.Sprintf("Engine.MatchRequest (referrer %q)", src), g)
+			}
 		}
 	}
 	return got
